@@ -813,7 +813,7 @@ mod clu {
                         let ds = DatasetBase::from(x.clone());
                         match cfg.var {
                             0 => {
-                                let m = KMeans::<$F, L2Dist>::params_with(3, rng(cfg.data), L2Dist).n_runs(2).fit(&ds).expect("harness: kmeans fit");
+                                let m = KMeans::<$F, L2Dist>::params_with(3, rng(cfg.data), L2Dist).n_runs(2).fit(&ds).expect("harness: setup: kmeans fit");
                                 hist!(ev, cfg, "model", KMeans<$F, L2Dist>, m, |m: &KMeans<$F, L2Dist>| obs_kmeans(m), eq)
                             }
                             1 => {
@@ -821,11 +821,11 @@ mod clu {
                                     .init_method(KMeansInit::Precomputed(x.select(Axis(0), &[0, 1])))
                                     .max_n_iterations(3)
                                     .fit(&ds)
-                                    .expect("harness: kmeans fit");
+                                    .expect("harness: setup: kmeans fit");
                                 hist!(ev, cfg, "model", KMeans<$F, L1Dist>, m, |m: &KMeans<$F, L1Dist>| obs_kmeans(m), eq)
                             }
                             2 => {
-                                let m = KMeans::<$F, LpDist<$F>>::params_with(3, rng(cfg.data), LpDist(<$F>::of(3.0))).n_runs(1).fit(&ds).expect("harness: kmeans fit");
+                                let m = KMeans::<$F, LpDist<$F>>::params_with(3, rng(cfg.data), LpDist(<$F>::of(3.0))).n_runs(1).fit(&ds).expect("harness: setup: kmeans fit");
                                 hist!(ev, cfg, "model", KMeans<$F, LpDist<$F>>, m, |m: &KMeans<$F, LpDist<$F>>| obs_kmeans(m), eq)
                             }
                             _ => bad_var(cfg),
@@ -882,7 +882,7 @@ mod clu {
                             1 => p.n_runs(2).init_method(GmmInitMethod::Random).reg_covariance(<$F>::of(1e-2)),
                             _ => bad_var(cfg),
                         };
-                        let m = p.fit(&ds).expect("harness: gmm fit");
+                        let m = p.fit(&ds).expect("harness: setup: gmm fit");
                         hist!(ev, cfg, "model", GaussianMixtureModel<$F>, m, |m: &GaussianMixtureModel<$F>| obs_gmm(m), eq)
                     }};
                 }
@@ -895,7 +895,7 @@ mod clu {
                         macro_rules! one {
                             ($D:ty, $N:ty, $p:expr) => {{
                                 type P = DbscanValidParams<$F, $D, $N>;
-                                let vp: P = $p.check().expect("harness: dbscan params");
+                                let vp: P = $p.check().expect("harness: setup: dbscan params");
                                 hist!(ev, cfg, "params", P, vp, |p: &P| {
                                     let mut o = Ob::new();
                                     o.f("debug", dbg(p));
@@ -981,8 +981,8 @@ mod clu {
                     ($F:ty) => {{
                         let x = data2::<$F>(cfg);
                         let a: OpticsAnalysis<$F> = match cfg.var {
-                            0 => Optics::params::<$F>(3).tolerance(<$F>::of(2.0)).transform(x.view()).expect("harness: optics"),
-                            1 => Optics::params_with::<$F, _, _>(2, L1Dist, CommonNearestNeighbour::BallTree).tolerance(<$F>::of(1.0)).transform(x.view()).expect("harness: optics"),
+                            0 => Optics::params::<$F>(3).tolerance(<$F>::of(2.0)).transform(x.view()).expect("harness: setup: optics"),
+                            1 => Optics::params_with::<$F, _, _>(2, L1Dist, CommonNearestNeighbour::BallTree).tolerance(<$F>::of(1.0)).transform(x.view()).expect("harness: setup: optics"),
                             _ => bad_var(cfg),
                         };
                         hist!(ev, cfg, "model", OpticsAnalysis<$F>, a, |a: &OpticsAnalysis<$F>| obs_optics(a), eq)
@@ -994,7 +994,7 @@ mod clu {
                 macro_rules! go {
                     ($F:ty) => {{
                         let x = data2::<$F>(cfg);
-                        let a: OpticsAnalysis<$F> = Optics::params::<$F>(3).tolerance(<$F>::of(2.0)).transform(x.view()).expect("harness: optics");
+                        let a: OpticsAnalysis<$F> = Optics::params::<$F>(3).tolerance(<$F>::of(2.0)).transform(x.view()).expect("harness: setup: optics");
                         let s: Sample<$F> = match cfg.var {
                             0 => a[0].clone(),
                             1 => a[a.as_slice().len() - 1].clone(),
@@ -1092,7 +1092,7 @@ mod lin {
                     ($F:ty) => {{
                         let (x, y) = reg_data::<$F>(200 + cfg.data, 12, 3);
                         let ds = DatasetBase::new(x, y);
-                        let m = LinearRegression::new().with_intercept(cfg.var == 0).fit(&ds).expect("harness: ols fit");
+                        let m = LinearRegression::new().with_intercept(cfg.var == 0).fit(&ds).expect("harness: setup: ols fit");
                         if cfg.var > 1 {
                             bad_var(cfg)
                         }
@@ -1111,7 +1111,7 @@ mod lin {
                         if cfg.var > 0 {
                             bad_var(cfg)
                         }
-                        let m = IsotonicRegression::new().fit(&ds).expect("harness: isotonic fit");
+                        let m = IsotonicRegression::new().fit(&ds).expect("harness: setup: isotonic fit");
                         hist!(ev, cfg, "model", FittedIsotonicRegression<$F>, m, |m: &FittedIsotonicRegression<$F>| m.obs(), eq)
                     }};
                 }
@@ -1132,11 +1132,11 @@ mod lin {
                             _ => bad_var(cfg),
                         };
                         if cfg.ty == "TweedieRegressor" {
-                            let m = p.fit(&ds).expect("harness: tweedie fit");
+                            let m = p.fit(&ds).expect("harness: setup: tweedie fit");
                             hist!(ev, cfg, "model", TweedieRegressor<$F>, m, |m: &TweedieRegressor<$F>| m.obs(), eq)
                         } else {
                             type P = TweedieRegressorValidParams<$F>;
-                            let vp: P = p.check().expect("harness: tweedie params");
+                            let vp: P = p.check().expect("harness: setup: tweedie params");
                             hist!(ev, cfg, "params", P, vp, |p: &P| {
                                 let mut o = Ob::new();
                                 o.f("debug", dbg(p));
@@ -1224,11 +1224,11 @@ mod enet {
                             _ => bad_var(cfg),
                         };
                         if cfg.ty == "ElasticNet" {
-                            let m = p.fit(&ds).expect("harness: elastic net fit");
+                            let m = p.fit(&ds).expect("harness: setup: elastic net fit");
                             hist!(ev, cfg, "model", ElasticNet<$F>, m, |m: &ElasticNet<$F>| obs_en(m), noeq)
                         } else {
                             type P = ElasticNetValidParams<$F>;
-                            let vp: P = p.check().expect("harness: elastic net params");
+                            let vp: P = p.check().expect("harness: setup: elastic net params");
                             hist!(ev, cfg, "params", P, vp, |p: &P| {
                                 let mut o = Ob::new();
                                 o.f("debug", dbg(p));
@@ -1255,11 +1255,11 @@ mod enet {
                             _ => bad_var(cfg),
                         };
                         if cfg.ty == "MultiTaskElasticNet" {
-                            let m = p.fit(&ds).expect("harness: multi-task elastic net fit");
+                            let m = p.fit(&ds).expect("harness: setup: multi-task elastic net fit");
                             hist!(ev, cfg, "model", MultiTaskElasticNet<$F>, m, |m: &MultiTaskElasticNet<$F>| obs_mt(m), noeq)
                         } else {
                             type P = MultiTaskElasticNetValidParams<$F>;
-                            let vp: P = p.check().expect("harness: elastic net params");
+                            let vp: P = p.check().expect("harness: setup: elastic net params");
                             hist!(ev, cfg, "params", P, vp, |p: &P| {
                                 let mut o = Ob::new();
                                 o.f("debug", dbg(p));
@@ -1356,15 +1356,15 @@ mod logi {
                             }
                             "FittedLogisticRegression" => {
                                 if cfg.var == 2 {
-                                    let m = p.fit(&dss).expect("harness: logistic fit").set_threshold(<$F>::of(0.3));
+                                    let m = p.fit(&dss).expect("harness: setup: logistic fit").set_threshold(<$F>::of(0.3));
                                     hist!(ev, cfg, "model", FittedLogisticRegression<$F, String>, m, |m: &FittedLogisticRegression<$F, String>| m.obs(), eq)
                                 } else {
-                                    let m = p.fit(&ds).expect("harness: logistic fit");
+                                    let m = p.fit(&ds).expect("harness: setup: logistic fit");
                                     hist!(ev, cfg, "model", FittedLogisticRegression<$F, usize>, m, |m: &FittedLogisticRegression<$F, usize>| m.obs(), eq)
                                 }
                             }
                             "BinaryClassLabels" => {
-                                let m = p.fit(&dss).expect("harness: logistic fit");
+                                let m = p.fit(&dss).expect("harness: setup: logistic fit");
                                 type T = BinaryClassLabels<$F, String>;
                                 hist!(ev, cfg, "model", T, m.labels().clone(), |l: &T| {
                                     let mut o = Ob::new();
@@ -1376,7 +1376,7 @@ mod logi {
                                 }, eq)
                             }
                             _ => {
-                                let m = p.fit(&ds).expect("harness: logistic fit");
+                                let m = p.fit(&ds).expect("harness: setup: logistic fit");
                                 type T = ClassLabel<$F, usize>;
                                 hist!(ev, cfg, "model", T, m.labels().neg.clone(), |l: &T| {
                                     let mut o = Ob::new();
@@ -1428,7 +1428,7 @@ mod logi {
                                 }, eq)
                             }
                             _ => {
-                                let m = p.fit(&ds).expect("harness: multi logistic fit");
+                                let m = p.fit(&ds).expect("harness: setup: multi logistic fit");
                                 hist!(ev, cfg, "model", MultiFittedLogisticRegression<$F, usize>, m, |m: &MultiFittedLogisticRegression<$F, usize>| m.obs(), eq)
                             }
                         }
@@ -1601,7 +1601,7 @@ mod svm {
                             2 => p.nu_weight(<$F>::of(0.3)).polynomial_kernel(<$F>::of(1.0), <$F>::of(2.0)),
                             _ => bad_var(cfg),
                         };
-                        let m = p.fit(&ds).expect("harness: svc fit");
+                        let m = p.fit(&ds).expect("harness: setup: svc fit");
                         hist!(ev, cfg, "model", Svm<$F, bool>, m, |m: &Svm<$F, bool>| m.obs(), eq)
                     }};
                 }
@@ -1618,7 +1618,7 @@ mod svm {
                             1 => p.pos_neg_weights(<$F>::of(1.0), <$F>::of(1.0)).linear_kernel(),
                             _ => bad_var(cfg),
                         };
-                        let m: Svm<$F, Pr> = p.fit(&ds).expect("harness: svm-pr fit");
+                        let m: Svm<$F, Pr> = p.fit(&ds).expect("harness: setup: svm-pr fit");
                         hist!(ev, cfg, "model", Svm<$F, Pr>, m, |m: &Svm<$F, Pr>| m.obs(), eq)
                     }};
                 }
@@ -1635,7 +1635,7 @@ mod svm {
                             1 => p.nu_svr(<$F>::of(0.5), Some(<$F>::of(10.0))).gaussian_kernel(<$F>::of(8.0)),
                             _ => bad_var(cfg),
                         };
-                        let m = p.fit(&ds).expect("harness: svr fit");
+                        let m = p.fit(&ds).expect("harness: setup: svr fit");
                         hist!(ev, cfg, "model", Svm<$F, $F>, m, |m: &Svm<$F, $F>| m.obs(), eq)
                     }};
                 }
@@ -1652,7 +1652,7 @@ mod svm {
                             1 => p.linear_kernel(),
                             _ => bad_var(cfg),
                         };
-                        let m: Svm<$F, bool> = p.fit(&ds).expect("harness: one-class fit");
+                        let m: Svm<$F, bool> = p.fit(&ds).expect("harness: setup: one-class fit");
                         hist!(ev, cfg, "model", Svm<$F, bool>, m, |m: &Svm<$F, bool>| m.obs(), eq)
                     }};
                 }
@@ -1763,11 +1763,11 @@ mod trees {
                                 }, eq)
                             }
                             "DecisionTree" => {
-                                let m = p.fit(&ds).expect("harness: tree fit");
+                                let m = p.fit(&ds).expect("harness: setup: tree fit");
                                 hist!(ev, cfg, "model", DecisionTree<$F, usize>, m, |m: &DecisionTree<$F, usize>| obs_tree(m, true), eq)
                             }
                             _ => {
-                                let m = p.fit(&ds).expect("harness: tree fit");
+                                let m = p.fit(&ds).expect("harness: setup: tree fit");
                                 type T = TreeNode<$F, usize>;
                                 hist!(ev, cfg, "model", T, m.root_node().clone(), |n: &T| {
                                     let mut o = Ob::new();
@@ -1817,7 +1817,7 @@ mod bayes {
                         match cfg.ty.as_str() {
                             "GaussianNb" if cfg.var == 2 => {
                                 let dss = DatasetBase::new(ds.records().clone(), ds.targets().mapv(|l| format!("class {}", l)));
-                                let m = GaussianNb::<$F, String>::params().fit(&dss).expect("harness: gnb fit");
+                                let m = GaussianNb::<$F, String>::params().fit(&dss).expect("harness: setup: gnb fit");
                                 hist!(ev, cfg, "model", GaussianNb<$F, String>, m, |m: &GaussianNb<$F, String>| {
                                     let mut o = Ob::new();
                                     o.f("tree", tree(m));
@@ -1833,7 +1833,7 @@ mod bayes {
                                     1 => p.var_smoothing(<$F>::of(1e-3)),
                                     _ => bad_var(cfg),
                                 };
-                                let m = p.fit(&ds).expect("harness: gnb fit");
+                                let m = p.fit(&ds).expect("harness: setup: gnb fit");
                                 hist!(ev, cfg, "model", GaussianNb<$F, usize>, m, model_obs!(GaussianNb<$F, usize>), eq)
                             }
                             "MultinomialNb" => {
@@ -1843,7 +1843,7 @@ mod bayes {
                                     1 => p.alpha(<$F>::of(0.5)),
                                     _ => bad_var(cfg),
                                 };
-                                let m = p.fit(&ds).expect("harness: mnb fit");
+                                let m = p.fit(&ds).expect("harness: setup: mnb fit");
                                 hist!(ev, cfg, "model", MultinomialNb<$F, usize>, m, model_obs!(MultinomialNb<$F, usize>), eq)
                             }
                             "GaussianNbValidParams" => {
@@ -1854,7 +1854,7 @@ mod bayes {
                                     _ => bad_var(cfg),
                                 };
                                 type P = GaussianNbValidParams<$F, usize>;
-                                let vp: P = p.check().expect("harness: gnb params");
+                                let vp: P = p.check().expect("harness: setup: gnb params");
                                 hist!(ev, cfg, "params", P, vp, |p: &P| {
                                     let mut o = Ob::new();
                                     o.f("debug", dbg(p));
@@ -1872,7 +1872,7 @@ mod bayes {
                                     _ => bad_var(cfg),
                                 };
                                 type P = MultinomialNbValidParams<$F, usize>;
-                                let vp: P = p.check().expect("harness: mnb params");
+                                let vp: P = p.check().expect("harness: setup: mnb params");
                                 hist!(ev, cfg, "params", P, vp, |p: &P| {
                                     let mut o = Ob::new();
                                     o.f("debug", dbg(p));
@@ -1979,7 +1979,7 @@ mod ftrl {
                                 let vp: V = p.check().expect("harness: invalid configuration for a fitted model");
                                 let mut m = Ftrl::new(vp.clone(), 2);
                                 for _ in 0..(2 + cfg.var) {
-                                    m = vp.fit_with(Some(m), &ds).expect("harness: ftrl fit");
+                                    m = vp.fit_with(Some(m), &ds).expect("harness: setup: ftrl fit");
                                 }
                                 hist!(ev, cfg, "model", Ftrl<$F>, m, |m: &Ftrl<$F>| obs_ftrl(m), noeq)
                             }
@@ -2064,15 +2064,15 @@ mod red {
                         };
                         match cfg.ty.as_str() {
                             "PlsRegression" => {
-                                let m = PlsRegression::<$F>::params(nc).fit(&ds).expect("harness: pls fit");
+                                let m = PlsRegression::<$F>::params(nc).fit(&ds).expect("harness: setup: pls fit");
                                 hist!(ev, cfg, "model", PlsRegression<$F>, m, |m: &PlsRegression<$F>| m.obs(), eq)
                             }
                             "PlsCanonical" => {
-                                let m = PlsCanonical::<$F>::params(nc).fit(&ds).expect("harness: pls fit");
+                                let m = PlsCanonical::<$F>::params(nc).fit(&ds).expect("harness: setup: pls fit");
                                 hist!(ev, cfg, "model", PlsCanonical<$F>, m, |m: &PlsCanonical<$F>| m.obs(), eq)
                             }
                             _ => {
-                                let m = PlsCca::<$F>::params(nc).fit(&ds).expect("harness: pls fit");
+                                let m = PlsCca::<$F>::params(nc).fit(&ds).expect("harness: setup: pls fit");
                                 hist!(ev, cfg, "model", PlsCca<$F>, m, |m: &PlsCca<$F>| m.obs(), eq)
                             }
                         }
@@ -2123,7 +2123,7 @@ mod red {
                         o
                     }, eq)
                 } else {
-                    let m = p.fit(&ds).expect("harness: pca fit");
+                    let m = p.fit(&ds).expect("harness: setup: pca fit");
                     hist!(ev, cfg, "model", Pca<f64>, m, |m: &Pca<f64>| obs_pca(m), eq)
                 }
             }
@@ -2149,11 +2149,11 @@ mod red {
                             _ => bad_var(cfg),
                         };
                         if cfg.ty == "FastIca" {
-                            let m = p.fit(&ds).expect("harness: ica fit");
+                            let m = p.fit(&ds).expect("harness: setup: ica fit");
                             hist!(ev, cfg, "model", FastIca<$F>, m, |m: &FastIca<$F>| obs_ica(m), eq)
                         } else {
                             type P = FastIcaValidParams<$F>;
-                            let vp: P = p.check().expect("harness: ica params");
+                            let vp: P = p.check().expect("harness: setup: ica params");
                             hist!(ev, cfg, "params", P, vp, |p: &P| {
                                 let mut o = Ob::new();
                                 o.f("debug", dbg(p));
@@ -2381,7 +2381,7 @@ mod prep {
                             _ => bad_var(cfg),
                         };
                         if cfg.ty == "LinearScaler" {
-                            let m = p.fit(&ds).expect("harness: scaler fit");
+                            let m = p.fit(&ds).expect("harness: setup: scaler fit");
                             hist!(ev, cfg, "model", LinearScaler<$F>, m, |m: &LinearScaler<$F>| obs_scaler(m), eq)
                         } else {
                             type P = LinearScalerParams<$F>;
@@ -2410,7 +2410,7 @@ mod prep {
                             _ => bad_var(cfg),
                         };
                         if cfg.ty == "FittedWhitener" {
-                            let m: FittedWhitener<$F> = p.fit(&ds).expect("harness: whitener fit");
+                            let m: FittedWhitener<$F> = p.fit(&ds).expect("harness: setup: whitener fit");
                             hist!(ev, cfg, "model", FittedWhitener<$F>, m, |m: &FittedWhitener<$F>| obs_whitener(m), eq)
                         } else {
                             hist!(ev, cfg, "params", Whitener, p, |p: &Whitener| {
@@ -2460,7 +2460,7 @@ mod prep {
             }
             "CountVectorizer" => {
                 let tx = texts(cfg);
-                let cv = cv_params(cfg).fit(&tx).expect("harness: count vectorizer fit");
+                let cv = cv_params(cfg).fit(&tx).expect("harness: setup: count vectorizer fit");
                 let obs = |m: &CountVectorizer| {
                     let mut o = Ob::new();
                     o.d("tree", tree_sorted(m));
@@ -2506,7 +2506,7 @@ mod prep {
                         hist!(ev, cfg, "params", TfIdfVectorizer, p, obs, noeq)
                     }
                 } else {
-                    let m = p.fit(&tx).expect("harness: tf-idf fit");
+                    let m = p.fit(&tx).expect("harness: setup: tf-idf fit");
                     let obs = |m: &FittedTfIdfVectorizer| {
                         let mut o = Ob::new();
                         o.d("tree", tree_sorted(m));
@@ -2545,9 +2545,23 @@ fn main() {
             data: geti(inp, "data") as u64,
             fmts: geta(inp, "fmts").iter().map(|x| x.as_str().unwrap().to_string()).collect(),
         };
-        let mut ev = Vec::new();
-        QSEED.with(|q| q.set(cfg.data));
-        dispatch(&mut ev, &cfg);
-        ev
+        // A case needs a value to start from.  When the estimator itself fails on the seeded data (e.g. a power
+        // method that does not converge) there is nothing to persist: the next derived seed is taken.  Such
+        // failures happen before the first event and are not judged; everything after `create` is.
+        let mut cfg = cfg;
+        for attempt in 0..6 {
+            QSEED.with(|q| q.set(cfg.data));
+            let r = guarded(|| {
+                let mut ev = Vec::new();
+                dispatch(&mut ev, &cfg);
+                ev
+            });
+            match r {
+                Ok(ev) => return ev,
+                Err(msg) if msg.starts_with("harness: setup: ") && attempt < 5 => cfg.data += 7919,
+                Err(msg) => return vec![panic_event("case", &msg)],
+            }
+        }
+        unreachable!()
     });
 }
